@@ -35,6 +35,7 @@ CONSTANTS
  PortDims <- {pdims}
  SubDims <- {sdims}
  PortAttrs <- {attrs}
+ AggAttrs <- {aggs}
  SubFlips <- {flips}
  Variants = {variants}
  Triples = {triples}
@@ -51,10 +52,11 @@ DEFECT_CLAUSE = "flipped_interface_dimensioned_member"
 
 
 def cfg(depth, width, members, pdims, sdims, attrs, flips, variants=False, triples=False, mutant="", invariants=None,
-        quiet=False, swaps=False, rootnm="NmAnon", subnm="NmAnon"):
+        quiet=False, swaps=False, rootnm="NmAnon", subnm="NmAnon", aggs="AggNone"):
     t = CFG.format(depth=depth, width=width, members=members, pdims=pdims, sdims=sdims, attrs=attrs, flips=flips,
                    variants="TRUE" if variants else "FALSE", triples="TRUE" if triples else "FALSE", mutant=mutant,
-                   quiet="TRUE" if quiet else "FALSE", swaps="TRUE" if swaps else "FALSE", rootnm=rootnm, subnm=subnm)
+                   quiet="TRUE" if quiet else "FALSE", swaps="TRUE" if swaps else "FALSE", rootnm=rootnm, subnm=subnm,
+                   aggs=aggs)
     for inv in (INVARIANTS if invariants is None else invariants):
         t += "INVARIANT %s\n" % inv
     return t
@@ -69,6 +71,36 @@ def _lib():
 
 
 _CLASSES = []
+_AGG = {}
+
+
+def agg_catalogue():
+    """the shape-castable port shapes of Wiring!AggT, and the initial values of Wiring!AggGiven (binding only: the
+    expected width / bit pattern comes from the specification)"""
+    if not _AGG:
+        from amaranth.hdl import unsigned, signed
+        from amaranth.lib import data, enum
+
+        slayout = data.StructLayout({"a": unsigned(2), "b": signed(3)})
+
+        class SClass(data.Struct):
+            a: unsigned(2) = 3
+            b: signed(3) = -1
+        arr = data.ArrayLayout(unsigned(2), 3)
+        nest = data.StructLayout({"x": data.ArrayLayout(unsigned(1), 2), "y": data.StructLayout({"a": unsigned(2)})})
+
+        class En(enum.Enum, shape=unsigned(2)):
+            B = 2
+            A = 1
+        _AGG.update({
+            "slayout": (slayout, {"a": 1, "b": -2}, slayout.const({"a": 1, "b": -2})),
+            "sclass": (SClass, {"b": 2}, SClass.const({"b": 2})),
+            "arr": (arr, [1, 2, 3], arr.const([1, 2, 3])),
+            "nest": (nest, {"x": [1, 0], "y": {"a": 2}}, nest.const({"x": [1, 0], "y": {"a": 2}})),
+            "enum": (En, En.A, En.B),
+        })
+    return _AGG
+
 
 
 def named_classes():
@@ -101,7 +133,10 @@ def build_members(ms, descs, mp=(), pool=None):
     out = {}
     for m in ms:
         ctor = wiring.In if m["flow"] == "In" else wiring.Out
-        if m["kind"] == "port":
+        if m["kind"] == "port" and m.get("agg"):
+            shape, given, const = agg_catalogue()[m["agg"]]
+            mem = ctor(shape, init={"none": None, "dict": given, "const": const}[m["ini"]])
+        elif m["kind"] == "port":
             mem = ctor(signed(m["w"]) if m["s"] else unsigned(m["w"]), init=m["init"])
         else:
             desc = build_sig(m["sub"], descs, mp + (m["name"],), pool)
@@ -178,7 +213,9 @@ def tree_has(ms, pred):
 def tree_repr(ms):
     parts = []
     for m in ms:
-        if m["kind"] == "port":
+        if m["kind"] == "port" and m.get("agg"):
+            d = "%s(%s, init=<%s>)" % (m["flow"], m["agg"], m["ini"])
+        elif m["kind"] == "port":
             d = "%s(%s%d, init=%d)" % (m["flow"], "s" if m["s"] else "u", m["w"], m["init"])
         else:
             nm = m["sub"].get("nm", "anon")
@@ -326,7 +363,7 @@ class Tester:
         return (pypath(l[0]), l[1], l[2], l[3], l[4])
 
     def check_flatten(self, k, sig, obj, what, same_as=None):
-        from amaranth.hdl import Shape, Signal
+        from amaranth.hdl import Shape, Signal, ShapeCastable, Const, Value
         ok, got = self.guarded("flatten", lambda: list(sig.flatten(obj)), " " + what)
         if not ok:
             return
@@ -334,7 +371,11 @@ class Tester:
         seen = []
         for path, member, value in got:
             sh = Shape.cast(member.shape)
-            seen.append((tuple(path), "In" if member.flow == _lib().In else "Out", sh.width, sh.signed, member.init or 0))
+            if isinstance(member.shape, ShapeCastable):      # the constant of the shape-castable, as a bit pattern
+                init = Const.cast(Const(member.init, member.shape)).value
+            else:
+                init = member.init or 0
+            seen.append((tuple(path), "In" if member.flow == _lib().In else "Out", sh.width, sh.signed, init))
         if not self.eq("flatten", "flatten", sorted(seen), sorted(want), what + " (path, flow, width, signed, init)"):
             return
         self.eq("flatten_once", "flatten", len(seen), self.exp["nleaves"], what + ": number of leaves visited")
@@ -342,8 +383,11 @@ class Tester:
             ok, there = self.guarded("getattr", lambda: traverse(obj, path), " path %r of %s" % (path, what))
             if not ok:
                 return
+            raw = value
+            value = value if isinstance(value, Signal) else Value.cast(value)     # (a data.View / enum view of a Signal)
             sh = value.shape() if isinstance(value, Signal) else None
-            if not (there is value and isinstance(value, Signal) and (sh.width, sh.signed, value.init) == w[2:]):
+            same = there is raw or (not isinstance(raw, Signal) and Value.cast(there) is value)
+            if not (same and isinstance(value, Signal) and (sh.width, sh.signed, value.init) == w[2:]):
                 self.bad("flatten", "flatten", "%s: value at %r is %r (expected the signal created for that leaf: shape/init %r)"
                          % (what, path, value, w[2:]))
                 return
@@ -351,7 +395,7 @@ class Tester:
                 ok, other = self.guarded("getattr", lambda: traverse(same_as, path), " path %r of the unflipped object" % (path,))
                 if not ok:
                     return
-                if other is not value:
+                if Value.cast(other) is not value:
                     self.bad("flipped_access", "flatten", "%s: leaf %r is not the signal of the unflipped object" % (what, path))
                     return
 
@@ -402,12 +446,13 @@ class Tester:
         return (sig if k == "S" else sig.flip()).create(path=(name,))
 
     def leaf_signals(self, arg, paths, what):
+        from amaranth.hdl import Signal, Const, Value
         out = {}
         for p in paths:
             ok, v = self.guarded("getattr", lambda: traverse(arg, p), " path %r of %s" % (p, what))
             if not ok:
                 return None
-            out[p] = v
+            out[p] = v if isinstance(v, (Signal, Const)) else Value.cast(v)      # views -> the signal they wrap
         return out
 
     def check_connect(self, t, args, perm, out, sim, what, clause="connect", consts=None, paths=None):
@@ -634,8 +679,11 @@ class Tester:
                 super().__init__(sig)
         self.stats["metadata"] += 1
         what = "Component(%s).metadata.as_json()" % ("sig" if k == "S" else "sig.flip()")
-        ok, js = self.guarded("metadata", lambda: C().metadata.as_json(), " " + what)
-        if not ok:
+        comp = C()
+        try:
+            js = comp.metadata.as_json()
+        except Exception as e:  # noqa: BLE001
+            self.report_exc("metadata", e, " " + what, clause="metadata_raises")
             return
         leaves = []
 
@@ -657,6 +705,18 @@ class Tester:
             self.bad("metadata", "metadata", "%s: malformed JSON (%s): %r" % (what, e, js))
             return
         self.eq("metadata", "metadata", sorted(leaves), sorted(self.flat[k]), what + " leaves (path, dir, width, signed, init)")
+        # the specification's leafmeta records, literally, and the ports the component really has
+        want = sorted((pypath(l[0]), l[1], l[2], l[3], l[4]) for l in self.exp.get("leafmeta" + k, ()))
+        got = sorted((p, {"In": "in", "Out": "out"}.get(d), w, sg, i) for p, d, w, sg, i in leaves)
+        if "leafmeta" + k in self.exp:
+            self.eq("metadata", "metadata", got, want, what + " leaves vs leafmeta (path, dir, width, signed, init)")
+        from amaranth.hdl import Value
+        for p, d, w, sg, i in leaves:
+            ok, port = self.guarded("getattr", lambda: Value.cast(traverse(comp, p)), " port %r of the component" % (p,))
+            if not ok:
+                return
+            self.eq("metadata_vs_signal", "metadata", (w, sg, i), (len(port), port.shape().signed, port.init),
+                    "%s port %r (width, signed, init) vs the component's own Signal" % (what, p))
         valid = schema_valid(js)
         if valid is not None:
             self.eq("metadata_schema", "metadata", valid, True, what + " validates against ComponentMetadata.schema (jschon)")
@@ -894,7 +954,13 @@ def plans_for(th):
                   {"metadata_every": 0, "workers": 4}))
         P.append(("nested", cfg(3, 2, 3, "DimsNone", "DimsTwo", "AttrsOne", "FlipsBoth"),
                   {"metadata_every": 16, "workers": 8}))
+        # ports shaped by aggregates (layouts, Struct classes with field defaults, shaped enums), initial value
+        # given as None / dict / constant: metadata of every such tree
+        P.append(("aggregates", cfg(2, 2, 2, "DimsTwo", "DimsTwo", "AttrsNone", "FlipsBoth", aggs="AggFew"),
+                  {"metadata_every": 1, "workers": 4}))
     else:
+        P.append(("aggregates", cfg(3, 2, 2, "DimsTwo", "DimsTwo", "AttrsOne", "FlipsBoth", aggs="AggAll"),
+                  {"metadata_every": 1, "workers": 8}))
         P.append(("leaves2-corrupt", cfg(1, 2, 2, "DimsAll", "DimsNone", "AttrsFew", "FlipsNo", variants=True, triples=True,
                                          quiet=True),
                   {"metadata_every": 1, "workers": 4}))
